@@ -133,7 +133,7 @@ def check(tier, seed, t0):
                     "with JSON inputs, numbers at the display boundaries (powers of ten and runs of nines +-3 ulps) as literals / to_string / format / JSON input, corpus-mutated sources (examples/, benches/, "
                     "README snippets), token soups, raw random UTF-8, nesting to 64, with JSON input documents incl. function objects. Every case "
                     "runs the whole pipeline (parse, convert, evaluate, render, validate, serialise, JSON text and back, error display, library and "
-                    "WASM formatter, tokenizer, WASM evaluate) in worker processes under an address-space limit and a timeout; each stage event is "
+                    "WASM formatter, tokenizer, WASM evaluate and inline evaluator, also with the text as the body of a serialised function input) in worker processes under an address-space limit and a timeout; each stage event is "
                     "validated by TLC against the Pipeline machine. Distinct non-trivial = distinct cases other than nullary calls." % (3 if thorough else 2),
             "samples": [cases[0], cases[len(cases) // 2], texts[0], texts[1]],
             "states": rm.distinct + rc.distinct, "transitions": rm.generated, "traces_validated_against_impl": len(allc),
